@@ -213,7 +213,7 @@ var (
 
 func run(r *ev.Run) {
 	setupChains()
-	r.Rule("E3 complete products through the real HandleMsg4: (A) opcode 0..255 x message type {absent,0..255} with a rich header; (B) op=1,type in {DISCOVER,REQUEST} x xid{0,ffffffff,01020304} x htype{1,6,255} x hlen{0,6,16,17,255} x flags{0,8000,7fff,ffff} x giaddr{0,set} x ciaddr{0,set} x opt82 x opt61 x chain{empty,range,server_id+range,NAK plugin,nil plugin}; (C) every truncation of 3 seeds. Oracle on raw bytes with an independent parser. Class = chain/opcode class/type class/#replies/reply type.")
+	r.Rule("E3 complete products through the real HandleMsg4: (A) opcode 0..255 x message type {absent,0..255} with a rich header; (B) op=1,type in {DISCOVER,REQUEST} x xid{0,ffffffff,01020304} x htype{1,6,255} x hlen{0,6,16,17,255} x flags{0,8000,7fff,ffff} x giaddr{0,set} x ciaddr{0,set} x opt82 x opt61 x chain{empty,range,server_id+range,NAK plugin,nil plugin}; (B2) option 82 of {absent,1,2,100,190,200,255} octets x option 61 of {absent,2,80,255} x option 57 {absent,300,576,1500} x giaddr x type x chain; (C) every truncation of 3 seeds. Oracle on raw bytes with an independent parser. Class = chain/opcode class/type class/#replies/reply type.")
 	r.Assume("listener bound to " + bif.Name + "; reply captured at WriteTo or as the L2 frame before the AF_PACKET socket; malformed message-type options (length != 1) and a missing END option are not asserted")
 	// (A)
 	for op := 0; op < 256; op++ {
@@ -256,6 +256,44 @@ func run(r *ev.Run) {
 									}
 								}
 							}
+						}
+					}
+				}
+			}
+		}
+	}
+	// (B2) sizes: whatever the length of the relay-agent information and of the client
+	// identifier, and whatever maximum message size the client announces, both are echoed
+	for _, chain := range chainNames {
+		for _, mt := range []byte{1, 3} {
+			for gi := 0; gi < 2; gi++ {
+				for _, l82 := range []int{-1, 1, 2, 100, 190, 200, 255} {
+					for _, l61 := range []int{-1, 2, 80, 255} {
+						for _, mms := range []int{-1, 300, 576, 1500} {
+							p := richHeader()
+							if gi == 1 {
+								p.GI = [4]byte{10, 0, 0, 1}
+							}
+							p.Opts = []pkt.Opt4{{Code: 53, Data: []byte{mt}}}
+							if mms >= 0 {
+								p.Opts = append(p.Opts, pkt.Opt4{Code: 57, Data: []byte{byte(mms >> 8), byte(mms)}})
+							}
+							if l82 >= 0 {
+								d := make([]byte, l82)
+								if l82 >= 2 {
+									d[0], d[1] = 1, byte(l82-2) // one circuit-id sub-option filling the option
+								}
+								for i := 2; i < l82; i++ {
+									d[i] = byte('a' + i%26)
+								}
+								p.Opts = append(p.Opts, pkt.Opt4{Code: 82, Data: d})
+							}
+							if l61 >= 0 {
+								d := bytes.Repeat([]byte{0x5c}, l61)
+								d[0] = 0
+								p.Opts = append(p.Opts, pkt.Opt4{Code: 61, Data: d})
+							}
+							eval(r, chain, p.Bytes(), fmt.Sprintf("option 82 of %d, option 61 of %d octets, max message size %d", l82, l61, mms))
 						}
 					}
 				}
